@@ -349,6 +349,9 @@ func (c15) Exec(seed int64, i int, tier string) Record {
 	if i%25 == 11 {
 		return c15ForeignErrCase(r) // b11_helpers.go
 	}
+	if i%50 == 23 {
+		return c15TwinCase(r) // b13_helpers.go
+	}
 	o := DefaultOpts()
 	o.ErrBias = 15
 	plain := Config(false, nil)
